@@ -447,6 +447,11 @@ func runNyctTrips(c *Ctx) {
 					}
 				}
 				c.Check(okG && strings.Contains(idExpr, "proto:NyctTripDescriptor.TrainId"), "NYCT", fname, "assigned trips get a vehicle whose id is the train id", p.ipos(call), "setVehicleDescriptor under GetIsAssigned(), Id <- GetTrainId()", "the vehicle descriptor is set without the trip being assigned, or its id is not the train id ("+clip(idExpr, 60)+" / "+clip(desc, 40)+")")
+				// and the setter puts that very descriptor on the entity, unmodified
+				if setter := staticCallee(call); setter != nil && len(setter.Blocks) > 0 {
+					bad, nst := descriptorKeptIntact(c, setter)
+					c.Check(bad == "" && nst > 0, "NYCT", shortName(setter), "the derived vehicle descriptor reaches the entity unmodified", p.pos(setter.Pos()), fmt.Sprintf("%d stores of the descriptor parameter into the entity's vehicle field; the descriptor is not written to or handed to a mutating call on the way", nst), "the descriptor whose id is the train id is changed before it is put on the entity: "+bad)
+				}
 			}
 		}
 		if n == 0 {
@@ -811,6 +816,7 @@ func runNyctAlerts(c *Ctx) {
 	if ua == nil || ue == nil || gp == nil || bm == nil {
 		return
 	}
+	runAlertStateConfinement(c, ua)
 	// Y1: alerts are dropped only with the option set and for an entity whose Mercury priority is one of the three
 	// timetabled no-service priorities -- the set may be a map literal or a predicate function
 	var wantPrio []string
@@ -1425,6 +1431,10 @@ func storeAlternatives(b *binder, v ssa.Value) []storeAlt {
 						isCallish = true // a helper of the library that picks the value (generated getters are leaves)
 					}
 				}
+				switch st.Val.(type) {
+				case *ssa.BinOp, *ssa.Convert, *ssa.ChangeType, *ssa.MakeInterface:
+					isCallish = true // an expression over a picked value (inner is empty when there is none)
+				}
 				if isCallish && len(inner) > 0 {
 					for _, in := range inner {
 						out = append(out, storeAlt{append(append([]string{}, gs...), in.guards...), in.val})
@@ -1440,6 +1450,29 @@ func storeAlternatives(b *binder, v ssa.Value) []storeAlt {
 		}
 	case *ssa.Call:
 		return callAlternatives(b, x, 0)
+	case *ssa.BinOp, *ssa.Convert, *ssa.ChangeType, *ssa.MakeInterface:
+		// an expression over one value that a helper of the library picks ((value, ok) helpers included): the
+		// expression once per alternative of that value. Alternatives that the flag tested on the way here excludes
+		// (`v, ok := pick(..); if !ok { continue }`) are left out.
+		leaf := pickLeaf(b, v, 0)
+		if leaf == nil {
+			return nil
+		}
+		var at *ssa.BasicBlock
+		if in, ok := v.(ssa.Instruction); ok {
+			at = in.Block()
+		}
+		var alts []storeAlt
+		if ex, ok := leaf.(*ssa.Extract); ok {
+			alts = callAlternativesAt(b, ex.Tuple.(*ssa.Call), ex.Index, at)
+		} else {
+			alts = callAlternativesAt(b, leaf.(*ssa.Call), 0, at)
+		}
+		for _, alt := range alts {
+			nb := &binder{c: b.c, memo: map[ssa.Value]string{leaf: alt.val}, busy: map[ssa.Value]bool{}, carriers: b.carriers, fieldSrc: b.fieldSrc, classOf: b.classOf,
+				subst: b.subst, inlineD: b.inlineD, catForm: b.catForm, catRaw: b.catRaw, showBodies: b.showBodies}
+			out = append(out, storeAlt{alt.guards, nb.bind(v)})
+		}
 	case *ssa.Phi:
 		for i, ed := range x.Edges {
 			pred := x.Block().Preds[i]
@@ -1463,6 +1496,94 @@ func storeAlternatives(b *binder, v ssa.Value) []storeAlt {
 	return out
 }
 
+// pickLeaf: the one operand (through arithmetic and conversions) of v that is the result of a module helper with
+// several returns; nil when there is none or more than one.
+func pickLeaf(b *binder, v ssa.Value, d int) ssa.Value {
+	if d > 4 {
+		return nil
+	}
+	isPick := func(call *ssa.Call) bool {
+		cal := call.Call.StaticCallee()
+		if cal == nil || call.Call.IsInvoke() || !b.c.P.isModuleFn(cal) || isProtoPkg(fnPkgPath(cal)) || len(cal.Blocks) < 2 {
+			return false
+		}
+		n := 0
+		for _, blk := range cal.Blocks {
+			if _, ok := blk.Instrs[len(blk.Instrs)-1].(*ssa.Return); ok {
+				n++
+			}
+		}
+		return n > 1
+	}
+	var ops []ssa.Value
+	switch x := v.(type) {
+	case *ssa.Extract:
+		if call, ok := x.Tuple.(*ssa.Call); ok && isPick(call) {
+			return x
+		}
+		return nil
+	case *ssa.Call:
+		if isPick(x) {
+			return x
+		}
+		return nil
+	case *ssa.BinOp:
+		ops = []ssa.Value{x.X, x.Y}
+	case *ssa.Convert:
+		ops = []ssa.Value{x.X}
+	case *ssa.ChangeType:
+		ops = []ssa.Value{x.X}
+	case *ssa.MakeInterface:
+		ops = []ssa.Value{x.X}
+	default:
+		return nil
+	}
+	var found ssa.Value
+	for _, o := range ops {
+		if l := pickLeaf(b, o, d+1); l != nil {
+			if found != nil && found != l {
+				return nil
+			}
+			found = l
+		}
+	}
+	return found
+}
+
+// callAlternativesAt: callAlternatives, without the returns that a test of one of the call's boolean results on the
+// way to block `at` rules out (the helper returns the constant of the other polarity there).
+func callAlternativesAt(b *binder, x *ssa.Call, idx int, at *ssa.BasicBlock) []storeAlt {
+	need := map[int]bool{}
+	if at != nil {
+		for _, ce := range dominatingConds(at) {
+			cnd, val := ce.Cond, ce.Val
+			if un, ok := cnd.(*ssa.UnOp); ok && un.Op == token.NOT {
+				cnd, val = un.X, !val
+			}
+			if ex, ok := cnd.(*ssa.Extract); ok && ex.Tuple == ssa.Value(x) && !ce.Composite {
+				need[ex.Index] = val
+			}
+		}
+	}
+	callAltSkip = func(ret *ssa.Return) bool {
+		for j, want := range need {
+			if j < len(ret.Results) {
+				if k, isC := ret.Results[j].(*ssa.Const); isC {
+					if bv, isB := constBool(k); isB && bv != want {
+						return true
+					}
+				}
+			}
+		}
+		return false
+	}
+	defer func() { callAltSkip = nil }()
+	return callAlternatives(b, x, idx)
+}
+
+// callAltSkip: set by callAlternativesAt for the duration of one expansion.
+var callAltSkip func(ret *ssa.Return) bool
+
 // callAlternatives: a module helper that picks the value: each of its returns (result idx) with the conditions
 // under which it is taken, in terms of the call's arguments.
 func callAlternatives(b *binder, x *ssa.Call, idx int) []storeAlt {
@@ -1480,6 +1601,9 @@ func callAlternatives(b *binder, x *ssa.Call, idx int) []storeAlt {
 	for _, blk := range cal.Blocks {
 		ret, ok := blk.Instrs[len(blk.Instrs)-1].(*ssa.Return)
 		if !ok || idx >= len(ret.Results) {
+			continue
+		}
+		if callAltSkip != nil && x.Parent() != cal && callAltSkip(ret) {
 			continue
 		}
 		// guards of the return block; when the block is entered straight from a test (a switch arm), that test too
@@ -1642,6 +1766,259 @@ func setsVehicleDescriptor(call *ssa.Call) bool {
 		if shortType(sig.Params().At(i).Type()) == "*proto.VehicleDescriptor" {
 			return true
 		}
+	}
+	return false
+}
+
+// runAlertStateConfinement: what the extension does to one alert is a function of that alert and the options; the one
+// piece of state carried from alert to alert is the table of group alerts (map[string]*proto.Alert) that elevator
+// grouping needs. Any other container held by the extension object that the alert path both writes and reads makes
+// the output for one alert depend on the alerts processed before it (a cache keyed by something that does not
+// determine the content, a set shared between groups).
+func runAlertStateConfinement(c *Ctx, ua *ssa.Function) {
+	p := c.P
+	if len(ua.Params) == 0 {
+		return
+	}
+	recvT := deref(ua.Params[0].Type())
+	st := structOf(recvT)
+	if st == nil {
+		return
+	}
+	type use struct {
+		writes, reads []string
+	}
+	uses := map[int]*use{}
+	mutable := func(t types.Type) bool {
+		switch t.Underlying().(type) {
+		case *types.Map, *types.Pointer, *types.Slice, *types.Chan:
+			return true
+		}
+		return false
+	}
+	isGroupTable := func(t types.Type) bool {
+		m, ok := t.Underlying().(*types.Map)
+		return ok && shortType(m.Elem()) == "*proto.Alert"
+	}
+	var classify func(v ssa.Value, u *use, d int)
+	classify = func(v ssa.Value, u *use, d int) {
+		if v == nil || v.Referrers() == nil || d > 4 {
+			return
+		}
+		for _, r := range *v.Referrers() {
+			switch x := r.(type) {
+			case *ssa.MapUpdate:
+				if x.Map == v {
+					u.writes = append(u.writes, p.ipos(x))
+				}
+			case *ssa.Lookup:
+				if x.X == v {
+					u.reads = append(u.reads, p.ipos(x))
+				}
+			case *ssa.Range:
+				u.reads = append(u.reads, p.ipos(x))
+			case *ssa.Store:
+				if x.Addr == v {
+					u.writes = append(u.writes, p.ipos(x))
+				}
+			case *ssa.UnOp:
+				if x.Op == token.MUL && x.X == v {
+					u.reads = append(u.reads, p.ipos(x))
+					classify(x, u, d+1)
+				}
+			case *ssa.FieldAddr:
+				if x.X == v {
+					classify(x, u, d+1)
+				}
+			case *ssa.IndexAddr:
+				if x.X == v {
+					classify(x, u, d+1)
+				}
+			case *ssa.Phi:
+				classify(x, u, d+1)
+			case *ssa.Call:
+				// handed to a helper or a method: follow into module code, treat builtins delete/len/append
+				if isBuiltin(x, "delete") {
+					u.writes = append(u.writes, p.ipos(x))
+					continue
+				}
+				if isBuiltin(x, "len") {
+					u.reads = append(u.reads, p.ipos(x))
+					continue
+				}
+				if cal := x.Call.StaticCallee(); cal != nil && p.isModuleFn(cal) && len(cal.Blocks) > 0 {
+					for i, a := range x.Call.Args {
+						if a == v && i < len(cal.Params) {
+							classify(cal.Params[i], u, d+1)
+						}
+					}
+				}
+			}
+		}
+	}
+	for _, fn := range c.regionOf(ua) {
+		for _, blk := range fn.Blocks {
+			for _, in := range blk.Instrs {
+				var fld int
+				var val ssa.Value
+				switch x := in.(type) {
+				case *ssa.Field:
+					if !types.Identical(x.X.Type(), recvT) {
+						continue
+					}
+					fld, val = x.Field, x
+				case *ssa.FieldAddr:
+					if !types.Identical(deref(x.X.Type()), recvT) {
+						continue
+					}
+					fld = x.Field
+					// the loads of the field
+					if x.Referrers() != nil {
+						for _, r := range *x.Referrers() {
+							if ld, ok := r.(*ssa.UnOp); ok && ld.Op == token.MUL {
+								ft := st.Field(fld).Type()
+								if mutable(ft) && !isGroupTable(ft) {
+									if uses[fld] == nil {
+										uses[fld] = &use{}
+									}
+									classify(ld, uses[fld], 0)
+								}
+							}
+						}
+					}
+					continue
+				default:
+					continue
+				}
+				ft := st.Field(fld).Type()
+				if !mutable(ft) || isGroupTable(ft) {
+					continue
+				}
+				if uses[fld] == nil {
+					uses[fld] = &use{}
+				}
+				classify(val, uses[fld], 0)
+			}
+		}
+	}
+	n := 0
+	for i := 0; i < st.NumFields(); i++ {
+		ft := st.Field(i).Type()
+		if !mutable(ft) || isGroupTable(ft) {
+			continue
+		}
+		n++
+		u := uses[i]
+		if u == nil {
+			u = &use{}
+		}
+		c.Check(len(u.writes) == 0 || len(u.reads) == 0, "ALRT", shortName(ua), "extension state "+st.Field(i).Name()+" does not carry data between alerts", p.pos(ua.Pos()), fmt.Sprintf("%d writes, %d reads on the alert path", len(u.writes), len(u.reads)), fmt.Sprintf("the extension keeps %s (%s) across alerts: written at %s and read at %s on the alert path. What is produced for one alert then depends on the alerts processed before it (only the table of group alerts may do that)", st.Field(i).Name(), shortType(ft), strings.Join(u.writes, ", "), strings.Join(u.reads, ", ")))
+	}
+	if n == 0 {
+		c.Proved("ALRT", shortName(ua), "extension state is the group table only", p.pos(ua.Pos()), "the extension object holds no map, pointer or slice besides the table of group alerts")
+	}
+}
+
+// descriptorKeptIntact: in the function that puts a derived *proto.VehicleDescriptor on an entity, the descriptor
+// parameter (and what helpers make of it) is stored into the entity's Vehicle field and is never written to or handed
+// to a call that may overwrite its fields (proto.Merge into it, Reset, Unmarshal ...). Returns a complaint and the
+// number of stores seen.
+func descriptorKeptIntact(c *Ctx, setter *ssa.Function) (string, int) {
+	p := c.P
+	isDesc := func(t types.Type) bool { return shortType(t) == "*proto.VehicleDescriptor" }
+	mutators := map[string]bool{"Merge": true, "Reset": true, "Unmarshal": true, "UnmarshalMerge": true, "SetExtension": true, "ClearExtension": true, "UnmarshalText": true, "UnmarshalJSON": true}
+	bad := ""
+	nst := 0
+	seen := map[ssa.Value]bool{}
+	var follow func(v ssa.Value, d int)
+	// returnsAlias: the module helper returns, on some path, the given parameter
+	follow = func(v ssa.Value, d int) {
+		if v == nil || seen[v] || d > 4 || v.Referrers() == nil {
+			return
+		}
+		seen[v] = true
+		for _, r := range *v.Referrers() {
+			switch x := r.(type) {
+			case *ssa.Store:
+				if x.Val == v {
+					if fa, ok := x.Addr.(*ssa.FieldAddr); ok && isDesc(deref(fa.Type())) && fieldName(fa.X.Type(), fa.Field) == "Vehicle" {
+						nst++
+					}
+				}
+			case *ssa.FieldAddr:
+				if x.X == v && x.Referrers() != nil {
+					for _, rr := range *x.Referrers() {
+						if st, ok := rr.(*ssa.Store); ok && st.Addr == ssa.Value(x) {
+							bad = "its field " + fieldName(x.X.Type(), x.Field) + " is overwritten at " + p.ipos(st)
+						}
+					}
+				}
+			case *ssa.Phi:
+				follow(x, d+1)
+			case *ssa.ChangeType:
+				follow(x, d+1)
+			case *ssa.MakeInterface:
+				follow(x, d+1)
+			case *ssa.Call:
+				cal := x.Call.StaticCallee()
+				argIdx := -1
+				for i, a := range x.Call.Args {
+					if a == v {
+						argIdx = i
+					}
+				}
+				if argIdx < 0 {
+					continue
+				}
+				if cal != nil && p.isModuleFn(cal) && len(cal.Blocks) > 0 && !strings.HasSuffix(fnPkgPath(cal), "/proto") {
+					if argIdx < len(cal.Params) {
+						follow(cal.Params[argIdx], d+1)
+						// what the helper returns may be the descriptor again
+						for _, blk := range cal.Blocks {
+							if ret, ok := blk.Instrs[len(blk.Instrs)-1].(*ssa.Return); ok {
+								for _, rv := range ret.Results {
+									if isDesc(rv.Type()) && reachesValue(rv, cal.Params[argIdx], 0) {
+										follow(x, d+1)
+									}
+								}
+							}
+						}
+					}
+					continue
+				}
+				name := calleeName(x)
+				short := name[strings.LastIndex(name, ".")+1:]
+				if mutators[short] && argIdx == 0 {
+					bad = name + " at " + p.ipos(x) + " writes into it (fields that are set in the other message, the id among them, replace its own)"
+				}
+			}
+		}
+	}
+	for _, prm := range setter.Params {
+		if isDesc(prm.Type()) {
+			follow(prm, 0)
+		}
+	}
+	return bad, nst
+}
+
+// reachesValue: v is w, or a phi / conversion over values one of which is w.
+func reachesValue(v, w ssa.Value, d int) bool {
+	if v == w {
+		return true
+	}
+	if d > 6 {
+		return false
+	}
+	switch x := v.(type) {
+	case *ssa.Phi:
+		for _, e := range x.Edges {
+			if reachesValue(e, w, d+1) {
+				return true
+			}
+		}
+	case *ssa.ChangeType:
+		return reachesValue(x.X, w, d+1)
 	}
 	return false
 }
